@@ -25,7 +25,7 @@
    statement it makes.  Not in these theorems (stays with C05/C07/C16 and the correspondence):
    the protobuf/pbcmpl bytes of the section and the version dispatch of Unmarshal. *)
 From Slim Require Import Base Keys Model BitmapRank BitmapRank2 BitmapSelectProofs Bits Msg MsgProofs FlatProofs
-     Legacy510 Legacy510Proofs Legacy510QueryProofs.
+     Scan ScanProofs ScanMsg ScanMsgIterProofs Legacy510 Legacy510Proofs Legacy510QueryProofs Legacy510ScanProofs.
 Local Open Scope N_scope.
 
 (* 1. the loaded message is today's message up to the two select indexes, never a panic *)
@@ -95,6 +95,38 @@ Theorem C06d_loaded_answers :
 Proof. exact loaded510_answers. Qed.
 Print Assumptions C06d_loaded_answers.
 
+(* 3b. the same for the scan APIs run over the loaded message (ScanMsg.v: getGEPath, NewIter, the
+   iterator closure, ScanFrom, ScanFromTo): NewIter and every call of the closure give what
+   Scan.v gives on the tree; with full prefixes a scan yields exactly the retained entries in
+   range, in order, with their value bytes (vocabulary of C04); without, the explicit refusal *)
+Theorem C06d_loaded_scans :
+  forall (o : opts) (keys : list key) (vals : option (list (list byte))) (T : trie) (esize : N),
+    build o keys vals = Ok T -> leaves_fixed esize T ->
+    exists Om L vs,
+      encode_0510 T = Val Om /\ load510 esize Om = Ok L /\ init_vars L = Val vs /\
+      forall fuel, (trie_height T <= fuel)%nat ->
+        (forall s incl withv,
+           match iter_init T s incl withv with
+           | Ok it => miter_init fuel L vs s incl withv = Ok (miter_of it) /\
+                      forall n, miter_run fuel n L vs (miter_of it) = iter_run n T it
+           | Err e => miter_init fuel L vs s incl withv = Err e
+           end) /\
+        (complete_opts o = true ->
+         forall s incl withv, exists mit outs,
+           miter_init fuel L vs s incl withv = Ok mit /\
+           Forall2 (elem_ok keys vals withv) (scan_indexes o keys vals s incl) outs /\
+           (forall n, miter_run fuel n L vs mit = Ok (firstn n (map Some outs ++ repeat None n))) /\
+           (forall lfuel fn, (scan_fuel T <= lfuel)%nat -> mscan_from fuel lfuel L vs s incl withv fn = Ok (cut fn 0 outs)) /\
+           (forall lfuel e incle fn, (scan_fuel T <= lfuel)%nat ->
+              mscan_from_to fuel lfuel L vs s incl e incle withv fn = Ok (cut_to e incle fn 0 outs))) /\
+        (keys <> [] -> complete_opts o = false ->
+         forall lfuel s incl withv,
+           miter_init fuel L vs s incl withv = Err (EPanic 20) /\
+           (forall fn, mscan_from fuel lfuel L vs s incl withv fn = Err (EPanic 20)) /\
+           (forall e incle fn, mscan_from_to fuel lfuel L vs s incl e incle withv fn = Err (EPanic 20))).
+Proof. exact loaded510_scans. Qed.
+Print Assumptions C06d_loaded_scans.
+
 (* 4. the hypothesis on the leaves: it holds whenever every supplied value has esize bytes *)
 Theorem C06d_fixed_values :
   forall (o : opts) (keys : list key) (vals : option (list (list byte))) (T : trie) (esize : N),
@@ -157,7 +189,7 @@ Proof.
   split; [vm_compute; reflexivity|]. split; [eexists; split; vm_compute; reflexivity|vm_compute; reflexivity].
 Qed.
 
-(* five stored inner prefixes "6", "b6", "c", "d", "d" (nibbles 6 | 6 2 6 | 6 3 | 6 4 | 6 4):
+(* five stored inner prefixes, in nibbles 6 | 6 2 6 | 6 3 | 6 4 | 6 4:
    0.5.10 wrote 01 68 | 01 62 68 | 00 63 | 00 64 | 00 64, the loader rewrites them in place to
    60 f0 | 62 60 f0 | 63 ff | 64 ff | 64 ff, which is what today's builder stores *)
 Example ex_prefix_bytes :
